@@ -81,9 +81,13 @@ def _convert_case(draw, tier):
 @st.composite
 def _solution_case(draw, tier):
     timedep = draw(st.booleans())
-    return dict(kind="solution", timedep=timedep, B=draw(st.sampled_from([0.4, -0.8, 1.2])), current=draw(st.sampled_from([0, 5, -8])),
+    return dict(kind="solution", timedep=timedep, B=draw(st.sampled_from([0.4, -0.8, 1.2, 0.02])), current=draw(st.sampled_from([0, 5, -8, 0.05])),
                 nsteps=draw(st.integers(2, 9)), save_every=draw(st.integers(1, 4)), frame=draw(st.integers(0, 20)),
-                fu=draw(st.sampled_from(["mT", "uT"])), cu=draw(st.sampled_from(["uA", "nA"])),
+                fu=draw(st.sampled_from(["mT", "uT"])), cu=draw(st.sampled_from(["uA", "nA", "mA", "A"])),
+                # the same physical device stated in micrometres or nanometres (weak currents are then tiny numbers in A/nm)
+                lu=draw(st.sampled_from(["um", "um", "nm"])),
+                # now and then a scan with very many evaluation points in one call
+                many=draw(st.integers(0, 11)) == 0,
                 z0=draw(st.sampled_from([0.0, 0.25])),
                 pts=[[draw(st.floats(-3, 3)), draw(st.floats(-3, 3)), draw(st.sampled_from([1, -1])) * draw(st.floats(0.1, 2.0))] for _ in range(draw(st.integers(1, 5)))],
                 zmode=draw(st.sampled_from(["column", "zs_array", "zs_scalar"])), vector=draw(st.booleans()),
@@ -208,6 +212,34 @@ def _loop(spec, res):
         res.label("point on / next to the loop axis")
         if worst_axis > 1e-8:
             res.fail("C20.loop_near_axis", f"evaluation point within 1e-3 radii of the loop axis: closed form gives {got[near_axis][0].tolist()} (error {worst_axis:.3e} of the scale)")
+        if spec.get("many"):
+            # a scan: a prime number of positions (more than 2**22 / number of sites) in one call; the parts due to the sheet
+            # currents must equal the direct sums, and one call must equal the same positions evaluated in pieces
+            res.label("scan with very many positions in one call")
+            nsite = len(dev.points)
+            M = next(m for m in range(int(2 ** 22 / nsite) + 1500, 10 ** 7) if all(m % q for q in range(2, int(m ** 0.5) + 1)))
+            k = np.arange(M)
+            lo, hi = dev.points.min(axis=0) - 1.0 * sL, dev.points.max(axis=0) + 1.0 * sL
+            P2 = np.stack([lo[0] + (hi[0] - lo[0]) * ((k * 0.6180339887) % 1.0), lo[1] + (hi[1] - lo[1]) * ((k * 0.7548776662) % 1.0)], axis=1)
+            zsc = spec["z0"] + 0.8 * sL
+            vp = sol.vector_potential_at_position(P2, zs=zsc, units="T * m", with_units=False, return_sum=False)
+            Bz = np.asarray(sol.field_at_position(P2, zs=zsc, units="T", with_units=False))
+            worst = 0.0
+            for a0 in range(0, M, 4096):
+                sl = slice(a0, min(a0 + 4096, M))
+                ev = np.stack([P2[sl, 0] * L, P2[sl, 1] * L, np.full(sl.stop - sl.start, zsc * L)], axis=1)
+                R = np.linalg.norm(ev[:, None, :] - pos_m[None, :, :], axis=2)
+                for name, K in (("supercurrent_density", Ks), ("normal_current_density", Kn)):
+                    want = (orc.MU0 / (4 * np.pi)) * (areas_m2[None, :] / R) @ K
+                    mag = (orc.MU0 / (4 * np.pi)) * ((areas_m2[None, :] / R) @ np.abs(K)).sum(axis=1)
+                    got = np.asarray(vp[name])[sl]
+                    worst = max(worst, float(np.max(np.abs(got[:, :2] - want) / (mag[:, None] + 1e-300))))
+            res.stat("potential_vs_direct_many", worst)
+            if worst > 1e-9:
+                res.fail("C20.potential_part", f"scan of {M} positions in one call: vector potential of the sheet currents differs from (mu0/4pi) sum K a / r by {worst:.3e}")
+            piece = np.concatenate([np.asarray(sol.field_at_position(P2[a0:a0 + 7001], zs=zsc, units="T", with_units=False)) for a0 in range(0, M, 7001)])
+            if Bz.shape != piece.shape or np.max(np.abs(Bz - piece)) > 1e-9 * (np.max(np.abs(piece)) + 1e-300):
+                res.fail("C20.field_part", f"scan of {M} positions: the field from one call differs from the same positions evaluated in pieces")
     res.nontrivial = len(pts) >= 3
     return res
 
@@ -264,12 +296,17 @@ def _solution(spec, res):
     from tdgl.sources import ConstantField, LinearRamp
 
     res.label("solution fields", "time-dependent A" if spec["timedep"] else "static A")
-    dspec = dict(_DEV, layer=dict(_DEV["layer"], z0=spec["z0"]))
+    from . import c08
+
+    lu = spec.get("lu", "um")
+    dspec, sL = c08.convert_device(dict(_DEV, layer=dict(_DEV["layer"], z0=spec["z0"])), lu)
+    spec = dict(spec, z0=spec["z0"] * sL, pts=[[p[0] * sL, p[1] * sL, p[2] * sL] for p in spec["pts"]])
     dev = build.make_device(dspec)
     lay = dspec["layer"]
     fu, cu = spec["fu"], spec["cu"]
+    res.label(f"units {lu}/{cu}")
     Bval = spec["B"] * orc.FIELD["mT"] / orc.FIELD[fu]
-    A = ConstantField(Bval, field_units=fu, length_units="um")
+    A = ConstantField(Bval, field_units=fu, length_units=lu)
     if spec["timedep"]:
         A = A * LinearRamp(tmin=0.0, tmax=0.05, initial=0.2, final=1.0)
     Ival = spec["current"] * orc.CURRENT["uA"] / orc.CURRENT[cu]
@@ -282,11 +319,11 @@ def _solution(spec, res):
         sol.solve_step = j
         t_frame = float(frames[j]["attrs"]["time"])
         pts = np.array(spec["pts"])
-        pts[:, 2] = np.where(np.abs(pts[:, 2] - spec["z0"]) < 0.1, spec["z0"] + 0.3, pts[:, 2])
+        pts[:, 2] = np.where(np.abs(pts[:, 2] - spec["z0"]) < 0.1 * sL, spec["z0"] + 0.3 * sL, pts[:, 2])
         if spec.get("intpos"):
             # positions given as integers, e.g. [1, 0, 2] ("a single list like [x, y, z] is also allowed")
             pts = np.round(pts)
-            pts[:, 2] = np.where(pts[:, 2] == 0, 1, pts[:, 2])
+            pts[:, 2] = np.where(np.abs(pts[:, 2] - spec["z0"]) < 0.1 * sL, np.round(spec["z0"] + 1.0 * sL), pts[:, 2])
             pts = pts.astype(int)
             res.label("integer positions")
         if spec["zmode"] == "column":
@@ -298,7 +335,7 @@ def _solution(spec, res):
         else:
             args, kw = (pts[:, :2],), dict(zs=float(pts[0, 2]))
             zz = np.full(len(pts), float(pts[0, 2]))
-        L = orc.LENGTH["um"]
+        L = orc.LENGTH[lu]
         pos_m = np.concatenate([dev.points * L, np.full((len(dev.points), 1), spec["z0"] * L)], axis=1)
         eval_m = np.stack([pts[:, 0] * L, pts[:, 1] * L, zz * L], axis=1)
         areas_m2 = dev.mesh.areas * (lay["xi"] * L) ** 2
@@ -307,8 +344,8 @@ def _solution(spec, res):
         # ---- field
         try:
             if spec.get("prime"):
-                xy0 = pts[:, :2] if spec["prime"] == "same_xy_other_z" else pts[::-1, :2] + 1
-                sol.field_at_position(xy0, zs=float(np.max(np.abs(zz))) + 2.5 + spec["z0"], units="T", with_units=False)
+                xy0 = pts[:, :2] if spec["prime"] == "same_xy_other_z" else pts[::-1, :2] + sL
+                sol.field_at_position(xy0, zs=float(np.max(np.abs(zz))) + 2.5 * sL + spec["z0"], units="T", with_units=False)
             parts = sol.field_at_position(*args, vector=spec["vector"], units="T", with_units=False, return_sum=False, **kw)
             total = sol.field_at_position(*args, vector=spec["vector"], units="T", with_units=False, return_sum=True, **kw)
         except Exception as exc:  # noqa: BLE001
@@ -334,9 +371,9 @@ def _solution(spec, res):
             if spec.get("prime"):
                 # an earlier evaluation on the same Solution must not influence the next one
                 res.label(f"preceded by an evaluation at {spec['prime'].replace('_', ' ')}")
-                xy0 = pts[:, :2] if spec["prime"] == "same_xy_other_z" else pts[::-1, :2] + 1
-                sol.vector_potential_at_position(xy0, zs=float(np.max(np.abs(zz))) + 1.5 + spec["z0"], units="T * m", with_units=False)
-                sol.field_at_position(xy0, zs=float(np.max(np.abs(zz))) + 2.5 + spec["z0"], units="T", with_units=False)
+                xy0 = pts[:, :2] if spec["prime"] == "same_xy_other_z" else pts[::-1, :2] + sL
+                sol.vector_potential_at_position(xy0, zs=float(np.max(np.abs(zz))) + 1.5 * sL + spec["z0"], units="T * m", with_units=False)
+                sol.field_at_position(xy0, zs=float(np.max(np.abs(zz))) + 2.5 * sL + spec["z0"], units="T", with_units=False)
             vp = sol.vector_potential_at_position(*args, units="T * m", with_units=False, return_sum=False, **kw)
             vsum = sol.vector_potential_at_position(*args, units="T * m", with_units=False, return_sum=True, **kw)
         except Exception as exc:  # noqa: BLE001
